@@ -8,6 +8,7 @@ Oracles:
      operation succeeds or fails exactly as the equivalent nested indexing does; paths deeper than 3 raise;
  (c) YAML by file and by text/stream: same sift type, same options modulo tuple/ndarray -> list, and
      for valid option edits the reloaded get_func() behaves like the original on several signals."""
+import collections
 import copy
 import os
 import shutil
@@ -65,7 +66,22 @@ def ynorm(o):
 
 def rand_value(rng):
     return [3, .25, None, 'abc', [1, 2], (1, 2.5), np.array([1., 2.]), True, -7, 1e-3, (0.05, 0.5, 0.05), 'pchip',
-            ((3, 3),), [(2, 3)], [[1, 2], (3, 4)], {'a': (1, 2)}][int(rng.integers(16))]
+            ((3, 3),), [(2, 3)], [[1, 2], (3, 4)], {'a': (1, 2)},
+            # arrays / tuples that are instances of a subclass (what np.load(mmap_mode=...), np.ma or a namedtuple hand over)
+            {'__view__': 'memmap', 'data': [.25, .1, .04]}, {'__view__': 'masked', 'data': [1., .5]}, {'__view__': 'subclass', 'data': [2., 3.]},
+            {'__view__': 'bigendian', 'data': [.3, .1]}, {'__namedtuple__': [0.05, 0.5, 0.05]}][int(rng.integers(21))]
+
+
+_NT = collections.namedtuple('Thresholds', ['sd1', 'sd2', 'tol'])
+
+
+def realise(v):
+    """History values are kept in a replayable form; markers become the real objects when they are applied."""
+    if isinstance(v, dict) and '__view__' in v:
+        return gens._view(np.array(v['data'], dtype=float), v['__view__'])
+    if isinstance(v, dict) and '__namedtuple__' in v:
+        return _NT(*v['__namedtuple__'])
+    return copy.deepcopy(v)
 
 
 def signal_for(k, n=96):
@@ -147,6 +163,31 @@ def yaml_roundtrips(ctx, S, cfg, name, case, wdir, tag):
         if not isinstance(back.store, dict) or ynorm(back.store) != want:
             ctx.violation('yaml-options:' + route, 'config written by the %s route came back with different options' % route, case)
             return None
+        # the same text / file read again after a read-back copy was edited: every read gives the options that were written
+        try:
+            scratch = S.SiftConfig.from_yaml_stream(txt) if route == 'text' else S.SiftConfig.from_yaml_file(fn)
+            for k in list(scratch.keys())[:4]:
+                v = scratch[k]
+                if isinstance(v, dict) and v:
+                    kk = next(iter(v))
+                    if isinstance(v[kk], dict) and v[kk]:
+                        v[kk][next(iter(v[kk]))] = 'edited-copy'
+                    else:
+                        scratch[k + '/' + kk] = 'edited-copy'
+                else:
+                    scratch[k] = 'edited-copy'
+            if len(scratch) > 1:
+                del scratch[list(scratch.keys())[-1]]
+            again = S.SiftConfig.from_yaml_stream(txt) if route == 'text' else S.SiftConfig.from_yaml_file(fn)
+        except Exception as e:
+            ctx.violation('yaml-reread-exception:%s:%s' % (route, type(e).__name__), 'reading the same YAML %s a second time raised %s: %s'
+                          % (route, type(e).__name__, str(e)[:100]), case)
+            return None
+        ctx.count('yaml_rereads')
+        if ynorm(again.store) != want or ynorm(back.store) != want:
+            ctx.violation('yaml-reread:' + route, 'after a config read from the YAML %s was edited, %s' % (route, 'a second read of the same text gives '
+                          'different options than were written' if ynorm(again.store) != want else 'the first read-back config changed as well'), case)
+            return None
         out.append(back)
     return out
 
@@ -169,7 +210,7 @@ def check_history(ctx, case, wdir):
                 raise ValueError('deep')
             if op in ('set', 'set_nested'):
                 mm = mget(model, path[:-1])
-                mm[path[-1]] = copy.deepcopy(h['value'])
+                mm[path[-1]] = realise(h['value'])
                 exp = ('ok', None)
             elif op == 'get':
                 exp = ('ok', mget(model, path))
@@ -186,13 +227,13 @@ def check_history(ctx, case, wdir):
         # real
         try:
             if op == 'set':
-                cfg[key] = copy.deepcopy(h['value'])
+                cfg[key] = realise(h['value'])
                 got = ('ok', None)
             elif op == 'set_nested':
                 tgt = cfg
                 for k in path[:-1]:
                     tgt = tgt[k]
-                tgt[path[-1]] = copy.deepcopy(h['value'])
+                tgt[path[-1]] = realise(h['value'])
                 got = ('ok', None)
             elif op == 'get':
                 got = ('ok', cfg[key])
